@@ -246,6 +246,21 @@ Theorem C11_client_independent_of_other_clients : forall c ops w1 w2,
 Proof. exact client_independence_gen. Qed.
 Print Assumptions C11_client_independent_of_other_clients.
 
+(* the OTHER configuration methods of a client (SetTimeout, SetCookieJar, SetUserAgent ...) leave
+   the policy alone: made in any number and any order with SetRedirectPolicy, Clone and requests,
+   they change no outcome *)
+Theorem C11_other_configuration_is_irrelevant : forall ops w,
+  crun w (drop_other ops) = crun w ops.
+Proof. exact crun_ignores_other. Qed.
+Print Assumptions C11_other_configuration_is_irrelevant.
+
+(* the design of seeded change e-m1 (SetTimeout rebuilds the http.Client without CheckRedirect) is
+   a different machine: witness kept checked *)
+Theorem C11_rebuild_design_refuted :
+  exists ops, crun_rebuild [] ops <> snd (crun [] ops).
+Proof. exact rebuild_design_refuted. Qed.
+Print Assumptions C11_rebuild_design_refuted.
+
 (* the design of seeded change b-m1 (a clone's CheckRedirect bound to the source's policy field) is
    a different machine: witness kept checked *)
 Theorem C11_method_value_design_refuted :
@@ -373,6 +388,7 @@ Print Assumptions C11_get_domain_is_the_source.
 (* SetRedirectPolicy / Clone / C() have the shape the client model rests on *)
 Theorem C11_client_source_shape :
   checkredirect_assignments = 1 /\
+  httpclient_field_assignments = 1 /\
   set_policy_empty_is_noop = true /\
   set_policy_installs_closure_over_argument = true /\
   set_policy_copies_argument = true /\
@@ -404,6 +420,7 @@ Example C11_nonvacuous :
   get_domain (bs "[a:b.c.d]") = bs "c.d" /\
   get_domain (bs "256.1.1.1") = bs "1.1.1".
 Proof. vm_compute. repeat split. Qed.
+Print Assumptions C11_nonvacuous.
 
 (* non-vacuity of the client theorems: A refuses redirects, B := A.Clone(), A is opened up;
    a request through B still stops at the first response, one through A follows *)
@@ -415,3 +432,4 @@ Example C11_clients_nonvacuous :
    ([{| s_host := bs "a.test"; s_hdrs := hs |};
      {| s_host := bs "b.test"; s_hdrs := [(bs "Authorization", 0); (bs "X-Token", 1)] |}], Completed)].
 Proof. vm_compute. reflexivity. Qed.
+Print Assumptions C11_clients_nonvacuous.
